@@ -1171,6 +1171,8 @@ impl<B: Backend> Model for IModel<B> {
     let side = side_keys_setup::<B>(&store, self.mode);
     for h in &s.hist {
       let _ = apply_iop::<B>(&store, *h);
+      // (the observation's calls, as after every judged step — see `Real::touch`)
+      let _ = observe_keyids::<B>(&store, self.digests, &side);
       if self.mode.reopen_each && B::PERSISTENT {
         let _ = guard(|| B::reopen_keyids(&mut store));
       }
